@@ -24,6 +24,11 @@ func NewProba() *Proba {
 
 // TrueOnProba 判断给定的可能性是否为真（随机数 < proba）。
 func (p *Proba) TrueOnProba(proba float64) (truth bool) {
+	if verifEnabled {
+		if t, ok := verifCoin(proba); ok {
+			return t
+		}
+	}
 	p.lock.Lock()
 	truth = p.r.Float64() < proba
 	p.lock.Unlock()
